@@ -431,6 +431,14 @@ func TestC04HeldReaders(t *testing.T) {
 }
 
 var replayFns = map[string]vlib.ReplayFn{
+	"storm": func(raw json.RawMessage) *vlib.Failure {
+		var c StormCase
+		if f := vlib.Decode(raw, &c); f != nil {
+			return f
+		}
+		var uses int64
+		return propStorm(c, &uses)
+	},
 	"held": func(raw json.RawMessage) *vlib.Failure {
 		var c Case
 		if f := vlib.Decode(raw, &c); f != nil {
